@@ -38,11 +38,13 @@ def with_fuel(fn, limit):
     tree = ast.parse(src)
     t = _T(limit)
     tree = ast.fix_missing_locations(t.visit(tree))
-    ns = dict(fn.__globals__)
-    ns["_vf_tick"] = _tick
     code = compile(tree, inspect.getsourcefile(fn) or "<fuel>", "exec")
-    exec(code, ns)
-    new = ns[fn.__name__]
+    # the instrumented copy must share the module's real globals (module state such as position memories);
+    # only the counter hook is added to that namespace (in memory, never written to /repo)
+    fn.__globals__["_vf_tick"] = _tick
+    tmp = {}
+    exec(code, fn.__globals__, tmp)
+    new = tmp[fn.__name__]
 
     def run(*a, **kw):
         _counter["n"] = 0
